@@ -58,6 +58,10 @@ Proof. exact spacing_v0_refuted_overlap. Qed.
 Theorem spacing_v0_refuted_at_max_distance : exists c, spec_ok c (model_v0 c) = false.
 Proof. exact spacing_v0_refuted_boundary. Qed.
 
+(* a uint8 table before commit dc1e643 (distance arithmetic in the table's dtype) *)
+Theorem spacing_u8_refuted : exists c, spec_ok c (model_u8 c) = false.
+Proof. exact spacing_u8_refuted_lemma. Qed.
+
 (* the spec is not vacuous: in-scope calls exist, and on them a wrong count, a missing cell or a
    raise is rejected *)
 Example spec_rejects_wrapped_overlap :
